@@ -45,7 +45,9 @@ C16Step(pre, ev) ==
 Generic(pre, ev) ==
   \* (IF .. THEN TRUE ELSE ..: inside an action TLC evaluates BOTH sides of a disjunction)
   IF ev.op = "drop" /\ PROP \notin {"C04", "C18"} THEN TRUE
-  ELSE IF ev.panic /\ PROP \notin {"C05", "C16", "C18", "C08"} THEN TRUE
+  \* a call that panicked is judged by C05 / C18; for the memory properties what the execution monitor saw DURING the call still
+  \* counts (a key hashed out of an uninitialised or dead node, a double drop), whether or not the call returned
+  ELSE IF ev.panic /\ PROP \notin {"C05", "C16", "C18", "C08"} THEN (IF PROP \in {"C03", "C04"} THEN ev.anomalies = <<>> ELSE TRUE)
   ELSE CASE PROP = "C01" -> \* (in clone mode the copy is a cache too: its bounds and accessors are judged as well)
                              (IF "len" \in DOMAIN ev.obs THEN C01View(OV(ev.obs)) /\ AccessorsOK(ev.obs) ELSE TRUE)
                              /\ (IF "obs2" \in DOMAIN ev /\ "len" \in DOMAIN ev.obs2 THEN C01View(OV(ev.obs2)) /\ AccessorsOK(ev.obs2) ELSE TRUE)
